@@ -129,6 +129,12 @@ def verify_unit(repo, reg, qualname, timeout_ms=10000, instance=None):
             p.assume(pre.bool(rtxt))
         for inv in class_invariants(reg, repo, fi, c):
             p.assume(pre.bool(inv))
+        if c.replay and c.replay.get("extract"):
+            for k, expr in c.replay["extract"].items():
+                try:
+                    pre.env["@" + k] = pre.value(expr)
+                except Exception:
+                    pass
         # vacuity: the precondition must be satisfiable
         res.vacuity["pre_sat"] = ex.feasible(p)
         if not res.vacuity["pre_sat"]:
@@ -346,6 +352,42 @@ def solve(ob, timeout_ms=10000, axioms=(), use_cvc5=True, extra_hyps=()):
                 ob.backend = "cvc5"
                 ob.time = time.time() - t0
     return ob.verdict
+
+
+def refine_model(ob, timeout_ms=5000):
+    """Counter-models use uninterpreted rdiv/rmul; for replay ask for one that respects their meaning
+    (instance axioms rdiv(a,b)*b = a, rmul(a,b) = a*b). Returns a model or None."""
+    from .ops import OpsMixin
+    apps, seen, todo = [], set(), list(ob.hyps) + [ob.goal]
+    while todo:
+        x = todo.pop()
+        i = x.get_id()
+        if i in seen:
+            continue
+        seen.add(i)
+        if z3.is_app(x) and x.decl().name() in ("rdiv", "rmul"):
+            apps.append(x)
+        if z3.is_quantifier(x):
+            todo.append(x.body())
+        else:
+            todo.extend(x.children())
+    if not apps:
+        return None
+    s = z3.Solver()
+    s.set("timeout", timeout_ms)
+    s.add(*ob.hyps)
+    s.add(z3.Not(ob.goal))
+    for a in apps:
+        try:
+            if a.decl().name() == "rdiv":
+                s.add(z3.Implies(a.arg(1) != 0, a * a.arg(1) == a.arg(0)))
+            else:
+                s.add(a == a.arg(0) * a.arg(1))
+        except z3.Z3Exception:
+            pass
+    if _timed_check(s, timeout_ms) == z3.sat:
+        return s.model()
+    return None
 
 
 def run_cvc5(smt2, timeout_ms):
